@@ -25,7 +25,7 @@ ASSUMPTIONS = [
     "with link faults enabled the clauses are checked only while the ASH link has not failed",
 ]
 PROBES = ["type.unicast", "type.multicast", "type.broadcast", "type.other_defined", "type.undefined", "join.allowed", "join.denied", "join.left", "join.left_denied",
-          "payload.empty", "payload.max", "rssi.negative", "faulty_link", "xiaomi_prefix", "join.device_known", "reconnect_other_version"]
+          "payload.empty", "payload.max", "rssi.negative", "faulty_link", "xiaomi_prefix", "join.device_known", "reconnect_other_version", "callback_during_reload"]
 
 VERSIONS = list(range(4, 15))
 UNICAST, MULTICAST, BROADCAST = 0, 2, 4
@@ -55,6 +55,8 @@ def plan(tier):
     for V in VERSIONS:
         sweeps.append(("types", {"V": V, "sched": False}))
         sweeps.append(("joins", {"V": V, "sched": False}))
+    for V in VERSIONS:
+        sweeps.append(("busy", {"V": V, "sched": False}))
     for V, then in ((13, [14]), (14, [13]), (14, [8, 14]), (4, [14, 7]), (8, [9]), (12, [14, 12])):
         sweeps.append(("reconnect", {"V": V, "then": then, "sched": False}))
     return {
@@ -119,7 +121,8 @@ def run(scenario, params, tape, detail=False):
                 viol.append(("C13.one", "count", f"{tag}: {len(got)} packets handed to zigpy (expected exactly one)"))
                 return
             p = got[0][1]
-            want_dst = {UNICAST: ("NWK", int(app.state.node_info.nwk)), MULTICAST: ("Group", group), BROADCAST: ("Broadcast", 0xFFFC)}[mtype]
+            # own address as the NCP knows it (not what the application object holds at this instant: that is part of what is being checked)
+            want_dst = {UNICAST: ("NWK", int(ncp.node_id)), MULTICAST: ("Group", group), BROADCAST: ("Broadcast", 0xFFFC)}[mtype]
             have = {"src_mode": p.src.addr_mode.name, "src": int(p.src.address), "src_ep": p.src_ep, "dst_mode": p.dst.addr_mode.name, "dst": int(p.dst.address),
                     "dst_ep": p.dst_ep, "profile": p.profile_id, "cluster": p.cluster_id, "tsn": p.tsn, "data": bytes(p.data.serialize()), "lqi": p.lqi, "rssi": p.rssi}
             want = {"src_mode": "NWK", "src": sender, "src_ep": sep, "dst_mode": want_dst[0], "dst": want_dst[1], "dst_ep": dep, "profile": profile, "cluster": cluster,
@@ -195,6 +198,25 @@ def run(scenario, params, tape, detail=False):
                 rig.ezsp = app._ezsp
                 await app.start_network()
                 await batch()
+        elif scenario == "busy":
+            # callbacks arriving while the application itself is in the middle of something: re-reading its network information (zigpy's
+            # periodic backup does this on a running network) - one callback after the k-th command of that operation, for every k
+            for load_devices in (False, True):
+                k = 0
+                while k < 60:
+                    base = len(ncp.requests)
+                    op = loop.create_task(app.load_network_info(load_devices=load_devices), name="reload")
+                    while len(ncp.requests) < base + k and not op.done():
+                        await asyncio.sleep(0.0002)
+                    if op.done():
+                        op.result()
+                        break
+                    probe("callback_during_reload")
+                    mtype = (UNICAST, MULTICAST, BROADCAST)[k % 3] if k % 2 else UNICAST
+                    aps = (0x0104, 0x0400 + k, 1 + k % 3, 1, 0x0140, 0x2200 + k, 0x30 + k)
+                    await incoming(app, mtype, aps, 100 + k, -30 - k, 0x6000 + k, 0, 0xFF, bytes([k, 1, 2]))
+                    await op
+                    k += 1
         elif scenario == "joins":
             import zigpy.types as zt
 
